@@ -47,6 +47,11 @@ def _witness(label: str, data: bytes, **kw: Any) -> dict[str, Any]:
 
 
 def judge(ctx: Any, label: str, data: bytes) -> str:
+    """Guarded _judge: a harness failure for one input is counted and skipped."""
+    return g.guarded(ctx, "judge " + label, _judge, ctx, label, data) or "harness-error"
+
+
+def _judge(ctx: Any, label: str, data: bytes) -> str:
     """Run one parse under the budgets and judge it. Returns the outcome class."""
     ctx.ev()
     n = len(data)
@@ -263,11 +268,10 @@ def _sweeps(ctx: Any, rng: Any, instances: int) -> None:
     idx = 0
     for cls in g.body_classes():
         for _ in range(instances):
-            body = g.gen_body(cls, rng)
+            valid = g.guarded(ctx, "sweep frame", lambda: g.frame_bytes(g.gen_body(cls, rng)))
             idx += 1
-            if not ctx.mine(idx):
+            if valid is None or not ctx.mine(idx):
                 continue
-            valid = g.frame_bytes(body)
             if len(valid) > 120:
                 # keep the sweep bounded: only the head of long frames is swept octet by octet
                 head = 60
@@ -319,10 +323,10 @@ def run(ctx: Any) -> None:
     # 2. structure-aware hostile frames per service code
     per = ctx.scale(500, 20000) // ctx.nshards
     for code in codes:
-        for label, data in g.hostile_for_service(code, rng, per):
+        for label, data in g.guarded(ctx, "hostile_for_service", g.hostile_for_service, code, rng, per) or []:
             judge(ctx, label, data)
         if len(ctx.samples) < 3:
-            label, data = g.hostile_for_service(code, rng, 1)[0]
+            label, data = (g.guarded(ctx, "hostile_for_service", g.hostile_for_service, code, rng, 1) or [("empty-body", g.header(code, 6))])[0]
             ctx.sample({"label": label, "data": data[:80]})
             judge(ctx, label, data)
 
@@ -334,7 +338,7 @@ def run(ctx: Any) -> None:
             for size in sizes + ((16000,) if ctx.quick and k == (svc & 3) else ()):
                 i += 1
                 if ctx.mine(i):
-                    judge(ctx, "many-minimal-dibs", g.many_tiny_dibs(svc, size, rng, unit))
+                    judge(ctx, "many-minimal-dibs", g.guarded(ctx, "many_tiny_dibs", g.many_tiny_dibs, svc, size, rng, unit) or b"")
     # and a long zero-filled / 0xFF-filled body per DIB/SRP carrying service
     for svc in (0x0204, 0x0202, 0x020C, 0x020B):
         for fill in (0, 0xFF, 2):
@@ -345,8 +349,9 @@ def run(ctx: Any) -> None:
                 judge(ctx, "long-filled-body", g.header(svc, 6 + len(body)) + body)
 
     # 4. random byte strings
-    for label, data in g.random_strings(rng, ctx.scale(20000, 600000) // ctx.nshards):
+    for label, data in g.guarded(ctx, "random_strings", g.random_strings, rng, ctx.scale(20000, 600000) // ctx.nshards) or []:
         judge(ctx, label, data)
+    g.harness_verdict(ctx)
     ctx.sample({"label": "zero-length DIB", "data": bytes.fromhex("061002040008 0003".replace(" ", ""))})
 
 
